@@ -54,7 +54,14 @@ func (p *Prog) desc(v ssa.Value, depth int) string {
 			}
 			return "*" + p.desc(x.X, depth+1)
 		case token.NOT:
-			return "!" + p.desc(x.X, depth+1)
+			switch d := p.desc(x.X, depth+1); d {
+			case "true":
+				return "false" // (a constant argument of an inlined helper)
+			case "false":
+				return "true"
+			default:
+				return "!" + d
+			}
 		case token.ARROW:
 			return "<-" + p.desc(x.X, depth+1)
 		}
@@ -416,12 +423,17 @@ func (p *Prog) edgeAtom(from, to *ssa.BasicBlock) *Atom {
 //     predecessor): the disjunction of the edge atoms.
 func (p *Prog) Guards(b *ssa.BasicBlock) []Atom {
 	var out []Atom
+	p.gdepth++
+	defer func() { p.gdepth-- }()
 	for x := b; x != nil; x = x.Idom() {
 		switch len(x.Preds) {
 		case 0:
 		case 1:
 			if a := p.edgeAtom(x.Preds[0], x); a != nil {
 				out = append(out, *a)
+				if p.gdepth > 5 {
+					continue // (a phi in a loop can lead back to this very branch)
+				}
 				ex := p.expandBoolPhi(*a, 0)
 				out = append(out, ex...)
 				// a predicate factored into a helper: import what holds when the helper answers as it did
@@ -437,6 +449,19 @@ func (p *Prog) Guards(b *ssa.BasicBlock) []Atom {
 		}
 	}
 	return out
+}
+
+// GuardsOnEdge: what holds when control reaches block `to` through its predecessor `from`.
+func (p *Prog) GuardsOnEdge(from, to *ssa.BasicBlock) []Atom {
+	out := p.Guards(to)
+	if from == nil {
+		return out
+	}
+	if ea := p.edgeAtom(from, to); ea != nil {
+		out = append(out, *ea)
+		out = append(out, p.expandBoolPhi(*ea, 0)...)
+	}
+	return append(out, p.Guards(from)...)
 }
 
 // predicateAtoms: the guard is `g(args…)` (or its negation) for a module function g returning a single bool.
@@ -682,40 +707,118 @@ func ResolveCell(v ssa.Value) ssa.Value {
 	return v
 }
 
-// expandBoolPhi: a branch on a materialised short-circuit value.
+// expandBoolPhi: a branch on a value that is a phi — a materialised short-circuit, a flag or an error assigned on
+// several paths (the shape statement-level inlining gives a helper's result). The branch outcome tells which
+// predecessors the phi can have been reached from; what holds on every such predecessor holds after the branch.
 //
 //	c := a && b   lowers to  phi(false | b)  — c true  ⇒ b true and the guards of b's block (a true);
-//	c := a || b   lowers to  phi(true  | b)  — c false ⇒ b false and the guards of b's block (a false).
+//	c := a || b   lowers to  phi(true  | b)  — c false ⇒ b false and the guards of b's block (a false);
+//	e := phi(err1 | nil) with err1 known non-nil — e == nil ⇒ the guards of the predecessor that assigned nil.
 func (p *Prog) expandBoolPhi(a Atom, depth int) []Atom {
-	if depth > 3 || a.Op != token.ILLEGAL || a.X == nil {
+	if depth > 3 || a.X == nil || len(a.Or) > 0 {
 		return nil
 	}
 	ph, ok := a.X.(*ssa.Phi)
 	if !ok {
 		return nil
 	}
-	var other ssa.Value
-	var otherPred *ssa.BasicBlock
-	for i, e := range ph.Edges {
-		if k, isK := e.(*ssa.Const); isK && k.Value != nil && (k.Value.ExactString() == "true" || k.Value.ExactString() == "false") {
-			// the constant edge must be the value that contradicts the observed truth
-			if (k.Value.ExactString() == "true") == a.Truth {
-				return nil
-			}
-			continue
-		}
-		if other != nil {
-			return nil
-		}
-		other = e
-		otherPred = ph.Block().Preds[i]
+	type cand struct {
+		atoms []Atom
 	}
-	if other == nil {
+	var cands []cand
+	blk := ph.Block()
+	switch {
+	case a.Op == token.ILLEGAL:
+		for i, e := range ph.Edges {
+			pred := blk.Preds[i]
+			var as []Atom
+			if k, isK := e.(*ssa.Const); isK && k.Value != nil && (k.Value.ExactString() == "true" || k.Value.ExactString() == "false") {
+				if (k.Value.ExactString() == "true") != a.Truth {
+					continue // this predecessor contradicts the observed value
+				}
+			} else {
+				na := p.MkAtom(e, a.Truth, a.If)
+				as = append(as, na)
+				as = append(as, p.expandBoolPhi(na, depth+1)...)
+			}
+			if ea := p.edgeAtom(pred, blk); ea != nil {
+				as = append(as, *ea)
+			}
+			as = append(as, p.Guards(pred)...)
+			cands = append(cands, cand{as})
+		}
+	case (a.Op == token.EQL || a.Op == token.NEQ) && a.Y != nil && IsNilConst(a.Y):
+		for i, e := range ph.Edges {
+			pred := blk.Preds[i]
+			st := p.ValState(e, pred, nil)
+			if IsNilConst(e) {
+				st = IsNil
+			}
+			if (a.Op == token.EQL && st == NonNil) || (a.Op == token.NEQ && st == IsNil) {
+				continue
+			}
+			var as []Atom
+			if st == Unknown {
+				if _, isPhi := e.(*ssa.Phi); isPhi {
+					na := Atom{Op: a.Op, X: e, Y: a.Y, If: a.If, Text: p.Desc(e) + " " + a.Op.String() + " nil"}
+					as = append(as, p.expandBoolPhi(na, depth+1)...)
+				} else {
+					as = append(as, Atom{Op: a.Op, X: ResolveCell(e), Y: a.Y, If: a.If, Text: p.Desc(e) + " " + a.Op.String() + " nil"})
+				}
+			}
+			if ea := p.edgeAtom(pred, blk); ea != nil {
+				as = append(as, *ea)
+			}
+			as = append(as, p.Guards(pred)...)
+			cands = append(cands, cand{as})
+		}
+	default:
 		return nil
 	}
-	na := p.MkAtom(other, a.Truth, a.If)
-	out := []Atom{na}
-	out = append(out, p.Guards(otherPred)...)
-	out = append(out, p.expandBoolPhi(na, depth+1)...)
+	if len(cands) == 0 {
+		return nil
+	}
+	if len(cands) == 1 {
+		return cands[0].atoms
+	}
+	// what every candidate predecessor guarantees
+	count := map[string]int{}
+	for _, c := range cands {
+		seen := map[string]bool{}
+		for _, x := range c.atoms {
+			if !seen[x.Text] {
+				seen[x.Text] = true
+				count[x.Text]++
+			}
+		}
+	}
+	var out []Atom
+	done := map[string]bool{}
+	for _, x := range cands[0].atoms {
+		if count[x.Text] == len(cands) && !done[x.Text] {
+			done[x.Text] = true
+			out = append(out, x)
+		}
+	}
+	// one distinguishing atom per predecessor: their disjunction holds
+	var or []Atom
+	for _, c := range cands {
+		var rest []Atom
+		seen := map[string]bool{}
+		for _, x := range c.atoms {
+			if count[x.Text] != len(cands) && !seen[x.Text] && len(x.Or) == 0 {
+				seen[x.Text] = true
+				rest = append(rest, x)
+			}
+		}
+		if len(rest) != 1 {
+			or = nil
+			break
+		}
+		or = append(or, rest[0])
+	}
+	if len(or) == len(cands) {
+		out = append(out, Atom{Or: or, Text: orText(or)})
+	}
 	return out
 }
